@@ -74,6 +74,14 @@ pub fn check(c: &KaCase, st: &mut Stats) -> Result<(), Viol> {
         if !ls.iter().any(|l| l.contains(" 001 ")) {
             return Err(Viol::new("C17.setup", "no-welcome", format!("client {} did not register: {:?}", nick, ls)));
         }
+        // some clients re-open a capability negotiation after registration and never end it:
+        // keep-alive must not depend on that
+        if s.chance(25) {
+            w.send_line(conn, ["CAP LS 302", "CAP REQ :multi-prefix", "CAP LIST"][s.pick(3)]);
+            w.settle();
+            w.drain(conn);
+            log.push(format!("t={} {} sent a CAP command after registration", w.now_ms(), nick));
+        }
         log.push(format!("t={} {} registered, pattern {:?}", w.now_ms(), nick, pattern));
         clients.push(Client {
             conn,
@@ -111,6 +119,9 @@ pub fn check(c: &KaCase, st: &mut Stats) -> Result<(), Viol> {
                 continue;
             }
             let ls = w.drain(conn);
+            if std::env::var("VERIF_DEBUG_C17").is_ok() && now > 101000 {
+                eprintln!("tick t={} c{} lines={:?} horizon_end={}", now, ci, ls, start + horizon_ms);
+            }
             for l in &ls {
                 if l.contains(" PING ") {
                     clients[ci].pings.push(now);
@@ -158,8 +169,9 @@ pub fn check(c: &KaCase, st: &mut Stats) -> Result<(), Viol> {
                         got = l.ends_with(&format!(":{}", t));
                         clients[ci].my_pongs += 1;
                     } else if l.contains(" PING ") {
-                        // a server PING that arrived in between: handle on the next tick by re-queuing
+                        // a server PING that arrived in between
                         clients[ci].pings.push(w.now_ms());
+                        log.push(format!("t={} {} < {} (seen while waiting for its own PONG)", w.now_ms(), clients[ci].nick, l));
                         let k = clients[ci].pings.len();
                         let answer = match clients[ci].pattern {
                             Pattern::Always | Pattern::AlwaysOddToken => true,
@@ -182,7 +194,28 @@ pub fn check(c: &KaCase, st: &mut Stats) -> Result<(), Viol> {
                 if s.chance(30) {
                     w.send_line(conn, &format!("PRIVMSG {} :still here", clients[ci].nick));
                     w.settle();
-                    w.drain(conn);
+                    // lines that arrive meanwhile (a server PING may be among them) are handled
+                    // like everywhere else
+                    for l in w.drain(conn) {
+                        if l.contains(" PING ") {
+                            clients[ci].pings.push(w.now_ms());
+                            log.push(format!("t={} {} < {} (seen after its own PRIVMSG)", w.now_ms(), clients[ci].nick, l));
+                            let k = clients[ci].pings.len();
+                            let answer = match clients[ci].pattern {
+                                Pattern::Always | Pattern::AlwaysOddToken => true,
+                                Pattern::Never => false,
+                                Pattern::StopsAfter(m) => k <= m,
+                            };
+                            if answer {
+                                w.send_line(conn, "PONG :LALAL");
+                                clients[ci].answered += 1;
+                            } else if clients[ci].first_unanswered.is_none() {
+                                clients[ci].first_unanswered = Some(w.now_ms());
+                            }
+                        } else if l.contains(" ERROR") {
+                            clients[ci].error_seen = true;
+                        }
+                    }
                 }
             }
         }
@@ -201,6 +234,9 @@ pub fn check(c: &KaCase, st: &mut Stats) -> Result<(), Viol> {
         for (i, t) in cl.pings.iter().enumerate() {
             let expect = cl.reg_ms + (i as u128 + 1) * p as u128 * 1000;
             let diff = if *t > expect { *t - expect } else { expect - *t };
+            if diff > slack + 5 && std::env::var("VERIF_DEBUG_C17").is_ok() {
+                eprintln!("pings of {} (reg {}): {:?}", cl.nick, cl.reg_ms, cl.pings);
+            }
             if diff > slack + 5 {
                 return Err(fail(
                     "C17.ping_cadence",
